@@ -29,7 +29,9 @@ PARAM_REJECTIONS = {
     "v1": set(), "v3": set(),
     "v3-aws-lc": {"core::num::nonzero::NonZero::<u32>::new((BE 32 $params))"},   # 0 iterations: not a conforming blob
     "v2": {f"core::num::<impl u64>::is_multiple_of({G8}, 1024)",                       # argon2 crate takes KiB
-           f"(NARROW (binop Div {G8} 1024))"},   # > 4 TiB
+           f"(NARROW (binop Div {G8} 1024))",   # > 4 TiB
+           # lane count outside argon2's own bounds 1..=2^24-1 (checked up front since the D10 fix; argon2 rejects it anyway)
+           "core::ops::range::RangeInclusive::<u32>::contains::<u32>('\\x01\\x00\\x00\\x00\\xff\\xff\\xff\\x00\\x00\\x00\\x00\\x00', (BE 32 $params[12..16]))"},
     "v4-sodium": {f"(NARROW {G8})",
                   "(binop Ne (BE 32 $params[12..16]) 1)"},    # libsodium fixes parallelism = 1
 }
